@@ -194,6 +194,7 @@ func vDraw(i int) uint32 {
 func vDrawNIs(i int, n uint32) bool {
 	return i >= 0 && i < len(verifDrawLog) && verifDrawLog[i].N == n
 }
+func vDrawN(i int) uint32 { return verifDrawLog[i].N }
 func vReads() int          { return vReadCnt }
 func vTapeLen() int        { return vTapePos }
 func vTapeByte(i int) byte {
